@@ -33,6 +33,9 @@ class Names:
                                 for _ in range(self.rng.randint(5, 9)))
         if self.unicode_ok and self.rng.random() < 0.25:
             n += self.rng.choice(["_gr\u00f6\u00dfe", "_\u00e9t\u00e9", "\u00df", "_\u01c6"])
+        elif self.rng.random() < 0.08:
+            # names as naga_oil writes them for imported items: the entry point's NAME is the whole string
+            n += self.rng.choice(["X_naga_oil_mod_XONUGCZDFOJZQX", "X_naga_oil_mod_XMNXW23LPNYX", "X_naga_oil_mod_XOBRHEX"])
         return n
 
     def fresh(self, prefix=""):
